@@ -116,6 +116,11 @@ impl<R: Read + Seek> ReadBox<&mut R> for MetaBox {
             // Get box header.
             let header = BoxHeader::read(reader)?;
             let BoxHeader { name, size: s } = header;
+            if s > size || s < HEADER_SIZE {
+                return Err(Error::InvalidData(
+                    "meta box contains a box with a larger size than it",
+                ));
+            }
 
             match name {
                 BoxType::HdlrBox => {
@@ -146,6 +151,11 @@ impl<R: Read + Seek> ReadBox<&mut R> for MetaBox {
                     // Get box header.
                     let header = BoxHeader::read(reader)?;
                     let BoxHeader { name, size: s } = header;
+                    if s > size || s < HEADER_SIZE {
+                        return Err(Error::InvalidData(
+                            "meta box contains a box with a larger size than it",
+                        ));
+                    }
 
                     match name {
                         BoxType::IlstBox => {
@@ -169,6 +179,11 @@ impl<R: Read + Seek> ReadBox<&mut R> for MetaBox {
                     // Get box header.
                     let header = BoxHeader::read(reader)?;
                     let BoxHeader { name, size: s } = header;
+                    if s > size || s < HEADER_SIZE {
+                        return Err(Error::InvalidData(
+                            "meta box contains a box with a larger size than it",
+                        ));
+                    }
 
                     match name {
                         BoxType::HdlrBox => {
